@@ -46,7 +46,6 @@ def validators : List (String × String) := [
 
 -- re-read 2026-09-26 after a79d153 (restore countdown loaded with max(duration, 1)); round 7: seven methods left for the translated tie
 def methods : List (String × String) := [
-  ("FileSystem.move_file", "def move_file(self, src_folder_name, src_file_name, dst_folder_name):\n    file = self.get_file(folder_name=src_folder_name, file_name=src_file_name)\n    if file:\n        src_folder = self.get_folder(folder_name=src_folder_name)\n        dst_folder = self.get_folder(folder_name=dst_folder_name)\n        if not dst_folder:\n            dst_folder = self.create_folder(dst_folder_name)\n        if dst_folder.get_file(file.name) is not None:\n            return\n        src_folder.files.pop(file.uuid)\n        file.num_access += 1\n        self.num_file_deletions += 1\n        file.folder_id = dst_folder.uuid\n        file.folder_name = dst_folder.name\n        dst_folder.add_file(file)\n        self.num_file_creations += 1")
 ]
 
 end Primaite.FileSystem.Snapshot
